@@ -120,6 +120,9 @@ struct Pot
       case RDP:
         {
           const T D = x + y + gamma * fabs(d) + eps;
+          if (D == T(0))
+            return T(0); // epsilon = 0 and x = y = 0 (non-negative images): the documented limit, RelativeDifferencePrior.h "If epsilon=0,
+                         // we attempt to resolve 0/0 at lambda_r = lambda_{r+dr} = 0 by using the limit" / "derivative_10(x,x) limits to 0"
           return d * (x + 3 * y + gamma * fabs(d) + 2 * eps) / (2 * D * D);
         }
       default:
